@@ -183,7 +183,7 @@ def evictPodX (x : X) : RX :=
   match x.readPod.2.m.env.pod with
   | none => evictGoneX x.readPod.2
   | some p =>
-    if (getCond x.m.mem.status.conds CT.eviction).isSome && x.m.mem.spec.podUID != 0 && x.m.mem.spec.podUID != p.uid then
+    if x.m.mem.spec.podUID != 0 && x.m.mem.spec.podUID != p.uid then   -- a same-name replacement is not the target (df70d80)
       evictGoneX x.readPod.2
     else
     if condReasonIs x.m.mem.status.conds CT.eviction Rs.evicting then .stop x.readPod.2 else
